@@ -580,6 +580,13 @@ def run(ck: core.Check, prove: bool = True):
         ck.lean(["SpoxModel.Props.C04"], audit="SpoxModel.Audit.C04")
         if ck.thorough:
             ck.leanchecker(["SpoxModel.Props.C04"])
+    # round 10: `iterative_dfs` itself against the model's `visit` on explicit generated graphs
+    try:
+        from harness import lib_dfstie
+
+        lib_dfstie.run_tie(ck, ck.pick(1500, 12000) * (3 if getattr(ck, "escalated", False) else 1))
+    except Exception as e:  # noqa: BLE001
+        ck.broken("correspondence", "dfs tie could not run", f"{type(e).__name__}: {e}"[:300])
     ck.trusted_base += [
         "hand-written model Model/BuildAlg.lean of spox._build.Builder (tie H: exact correspondence on every run)",
         "onnx.checker's structural rule (modelled by BuildAlg.structOk, compared with the real checker on every built case)",
